@@ -29,6 +29,7 @@ from .specs.type import (
     ArrayType,
     StructType,
     DynamicArrayType,
+    EnumType,
     OptionalType,
     StringType,
     UnsignedType,
@@ -112,6 +113,11 @@ def _encode_str(buffer: _Buffer, fcp: FcpV2, type: StringType, data: Any) -> Non
         _encode(buffer, fcp, UnsignedType("u8"), ord(x))
 
 
+def _encode_enum(buffer: _Buffer, fcp: FcpV2, type: EnumType, data: Any) -> None:
+    length = fcp.get_enum(type.name).unwrap().get_packed_size()
+    buffer.push_word(data, length)
+
+
 def _encode_struct(
     buffer: _Buffer, fcp: FcpV2, name: str, data: Dict[str, Any]
 ) -> None:
@@ -159,6 +165,8 @@ def _encode(
         _encode_builtin_double(buffer, type, data)
     elif isinstance(type, StringType):
         _encode_str(buffer, fcp, type, data)
+    elif isinstance(type, EnumType):
+        _encode_enum(buffer, fcp, type, data)
     elif isinstance(type, StructType):
         _encode_struct(buffer, fcp, type.name, data)
     elif isinstance(type, ArrayType):
@@ -205,6 +213,11 @@ def _decode_builtin_double(buffer: _Buffer, type: DoubleType) -> float:
 def _decode_str(buffer: _Buffer, type: StringType) -> str:
     len = _decode_builtin_unsigned(buffer, UnsignedType("u32"))
     return bytearray(buffer.read_bytes(len)).decode("ascii")
+
+
+def _decode_enum(buffer: _Buffer, fcp: FcpV2, type: EnumType) -> int:
+    length = fcp.get_enum(type.name).unwrap().get_packed_size()
+    return buffer.read_word(length)
 
 
 def _decode_array(buffer: _Buffer, fcp: FcpV2, type: ArrayType) -> List[Any]:
@@ -255,6 +268,8 @@ def _decode(buffer: _Buffer, fcp: FcpV2, type: Type) -> Dict[str, Any]:
         return _decode_builtin_double(buffer, type)
     elif isinstance(type, StringType):
         return _decode_str(buffer, type)
+    elif isinstance(type, EnumType):
+        return _decode_enum(buffer, fcp, type)
     elif isinstance(type, StructType):
         return _decode_struct(buffer, fcp, type.name)
     elif isinstance(type, ArrayType):
